@@ -1,7 +1,7 @@
 """C06 — BVH + narrow phase = brute force (structural, thin)."""
 from . import scopes
 from ..core.report import DOMAIN_D
-from ..rules import bvh, aabbtree, colliders
+from ..rules import bvh, aabbtree, colliders, unpack
 
 
 def run(idx, rep, tier):
@@ -25,3 +25,4 @@ def run(idx, rep, tier):
     aabbtree.r_bookkeep(idx, rep)
     aabbtree.r_unique(idx, rep)
     colliders.r_coherence(idx, rep, relevant_to="aabb")      # only what the broad phase reads: the pose and the attributes aabb() uses
+    unpack.r_unpack(idx, rep, floor=6)
